@@ -295,7 +295,10 @@ def _job(args):
     import hashlib
     import json
     label = 'none' if case is None else str(case)
-    key = hashlib.sha256(f'{tree_key()}|{contract.qual}|{label}|{timeout_ms}'.encode()).hexdigest()[:32]
+    # two contracts may cover the same function under complementary preconditions (arraySort default/custom order,
+    # arrayIndexOf value/match function): the report is keyed by the contract, not only by the function
+    who = f'{type(contract).__module__}.{type(contract).__name__}:{getattr(contract, "script_name", "")}'
+    key = hashlib.sha256(f'{tree_key()}|{contract.qual}|{who}|{label}|{timeout_ms}'.encode()).hexdigest()[:32]
     path = os.path.join(CACHE_DIR, key + '.json')
     use_cache = not os.environ.get('PYVC_NOCACHE')
 
